@@ -488,7 +488,7 @@ impl Reduce {
         input: Arc<Relation>,
     ) -> Self {
         // assert!(Split::from_iter(named_exprs.clone()).len()==1);
-        let (schema, aggregate) = Reduce::schema_aggregate(named_aggregate, &input);
+        let (schema, aggregate) = Reduce::schema_aggregate(named_aggregate, &group_by, &input);
         let size = Reduce::size(&input);
         Reduce {
             name,
@@ -503,6 +503,7 @@ impl Reduce {
     /// Compute the schema and exprs of the reduce
     fn schema_aggregate(
         named_aggregate_columns: Vec<(String, AggregateColumn)>,
+        group_by: &[Column],
         input: &Relation,
     ) -> (Schema, Vec<AggregateColumn>) {
         // The input schema HAS to be a Struct
@@ -513,7 +514,9 @@ impl Reduce {
             .iter()
             .filter(|(_, agg)| matches!(agg.aggregate(), &Aggregate::First))
             .count()
-            == 1;
+            == 1
+            // A lone FIRST is the group only if there is a single grouping key
+            && group_by.len() == 1;
         let (fields, aggregates) = named_aggregate_columns
             .into_iter()
             .map(|(name, aggregate_column)| {
